@@ -173,8 +173,9 @@ def run_trees(c, tier, what="basis", lines=None, io=None):
                 stats["accepted"] += 1
                 if why:      # accepted by the model although the answer violates the property text: model or theorem is wrong
                     report("judge", i, "%s_trees: %s (the acceptance model accepted this run)" % (alg, why), True, {"model": m, "model_case": ml})
-                elif what != "basis" and isinstance(ret, int) and int(t[1]) != ret:
-                    report("corr", i, "correspondence trees/%s: accumulated weight of the replayed run %s differs from the returned value %s; emitted basis is still minimum" % (alg, t[1], ret),
+                elif str(ret) != t[1]:
+                    # only reachable when the property text judged above does not mention the returned value (what == "basis")
+                    report("corr", i, "correspondence trees/%s: the weight accumulated by the replayed run (%s) differs from the returned value %s; the emitted family still satisfies the property text" % (alg, t[1], ret),
                            False, {"model": m, "model_case": ml, "theorem_or_correspondence": CORR % alg})
                 continue
             stats["rejected"] += 1
